@@ -43,6 +43,9 @@ func c02Run(c *Ctx) {
 		layers = append(layers, sweepLayer{"L2", GenOpts{OneGate: true, LeafSet: 1}, 2, nil})
 		fsets = flagsT
 	}
+	// the length of a redacted literal must not reach the output through the real line reader either: every line
+	// length up to past the reader's limit, the length being that of a SECRET
+	streamLenSweep(c, "C02", []string{"secret-pad"}, Flags{})
 	sweep(c, layers, func(sc *sweepCase) bool {
 		cs := sc.C
 		if !cs.InClaim {
